@@ -572,6 +572,11 @@ func (e *Enc) checkSteps(fr *Frame) {
 		}
 		m := e.mergeStates(li.backIns, fmt.Sprintf("f%d_loop%d_back", fr.id, li.ord))
 		st, reach := m.st, m.reach
+		// resolve local names (rangeindex, shadowed variables) as seen from inside the loop
+		savedBlock, savedIdx := fr.curBlock, fr.curIdx
+		if from := li.backIns[0].from; from != nil {
+			fr.curBlock, fr.curIdx = from, len(from.Instrs)-1
+		}
 		for i, c := range fr.contract.LoopStep[li.ord] {
 			lbl := c.Label
 			if lbl == "" {
@@ -596,6 +601,7 @@ func (e *Enc) checkSteps(fr *Frame) {
 			}
 		}
 		li.backIns = nil
+		fr.curBlock, fr.curIdx = savedBlock, savedIdx
 	}
 }
 
